@@ -1,7 +1,7 @@
 (* C08 - the racing pairs of the access table that are RECORDED FINDINGS (DESIGN 7.2 F6), written by
    hand: (field, function containing the write, function containing the other access).
    [Props/C08.v] proves that these are exactly the unsafe pairs of the generated table
-   ([c08_table_refuted], [c08_findings_real]) and that the table minus these pairs is race free
+   ([c08_table_refuted], [c08_findings_exact]) and that the table minus these pairs is race free
    ([c08_race_free_model_partial]).  When a finding is repaired in /repo, delete its lines here:
    the proofs then demand that the regenerated table no longer contains the pair. *)
 From Coq Require Import List String.
@@ -20,7 +20,7 @@ Definition f6a_partdisk : list finding := [
 
 (* F6b - muxerStream.close() set closed without the muxer mutex while handlers read it under the mutex:
    REPAIRED in /repo (c04d523: Close marks the streams closed under the mutex); its two pairs are gone
-   from the regenerated table, as [c08_unsafe_exactly] demands. *)
+   from the regenerated table, as [c08_findings_exact] demands. *)
 Definition f6b_closed : list finding := [].
 
 (* F6c - Write* stores new codec parameters into the user's Track.Codec outside the mutex; the
